@@ -230,6 +230,18 @@ fn other_environment(cmd: &mut Command) {
         .env("USER", "nobody");
 }
 
+/// violations reported by the JavaScript host leg that ran just before (C14 only, see ./check)
+fn hostleg_violations(property: &str) -> usize {
+    if property != "C14" {
+        return 0;
+    }
+    std::fs::read_to_string(format!("{}/out/hostleg.json", home()))
+        .ok()
+        .and_then(|s| serde_json::from_str::<serde_json::Value>(&s).ok())
+        .and_then(|v| v.get("violations").and_then(|x| x.as_array()).map(|a| a.len()))
+        .unwrap_or(0)
+}
+
 fn spawn_worker(property: &str, tier: &str, mask: Option<&str>) -> Child {
     let exe = std::env::current_exe().expect("current_exe");
     let mut cmd = match mask {
@@ -698,7 +710,7 @@ pub fn check(cfg: &CheckCfg) -> i32 {
         "seed": root as i64,
         "level": "exploration",
         "wall_s": wall,
-        "violations": reported.len(),
+        "violations": reported.len() + hostleg_violations(&cfg.property),
         "coverage": {
             "evaluations": agg.results,
             "distinct_nontrivial": distinct_nontrivial,
